@@ -560,3 +560,23 @@ Proof.
       specialize (IH (update s b) Hal1 Hrest). destruct (srun (update s b) t) as [s2 rs]. destruct IH as (Hal2 & Hcur & (suf2 & Hsuf) & Hrs).
       split; [exact Hal2|]. split; [lia|]. split; [exists (suf1 ++ suf2); rewrite Hsuf, Hs1, app_assoc; reflexivity|exact Hrs].
 Qed.
+
+(* ------------------------------------------------------------------ what the lock around the "nothing new" guard is for *)
+(* a variant of updateGuardianSets whose guard `max <= current` is evaluated on a snapshot of the current index taken before the
+   critical section (two deliveries of the same new set can then both pass it) *)
+Definition update_guard_on_snapshot (snapshot_cur : Z) (s : store) (batch : list gset) : store :=
+  match last_index batch with
+  | None => s
+  | Some maxi =>
+    if maxi <=? u32 snapshot_cur then s else
+    write_append (write_index s maxi) (skipn (find_start (u32 (u32 (cur s) + 1)) 0 batch) batch)
+  end.
+
+(* two appenders see current = 0 and deliver set 1; later set 2 arrives: the lookup of 2 returns set 1 *)
+Lemma guard_on_snapshot_misaligns :
+  let s0 := {| cur := 0; lists := [ex_set 0] |} in
+  let s1 := update_guard_on_snapshot 0 (update_guard_on_snapshot 0 s0 [ex_set 1]) [ex_set 1] in
+  let s2 := update s1 [ex_set 2] in
+  map g_index (lists s1) = [0; 1; 1] /\ cur s2 = 2 /\ nth_set s2 2 = Some (ex_set 1) /\
+  update (update s0 [ex_set 1]) [ex_set 1] = update s0 [ex_set 1].
+Proof. vm_compute. repeat split; reflexivity. Qed.
